@@ -10,6 +10,7 @@ mod c11;
 mod c12;
 mod c13;
 mod crash;
+mod e1;
 mod c14;
 mod c15;
 mod c16;
@@ -45,6 +46,7 @@ fn main() {
         "c17" => c17::run(&args),
         "c18" => c18::run(&args),
         "c19" => c19::run(&args),
+        "e1" => e1::run(&args),
         "c14ref" => c14::run_ref(&args),
         other => {
             eprintln!("unknown check {other}");
